@@ -522,6 +522,8 @@ class MiniEval:
                         res = True
                         break
             else:
+                if isinstance(right, Rec):
+                    raise Unknown(f"membership test in the opaque value {right!r}")
                 res = left in right
             return res if isinstance(op, ast.In) else (not res)
         try:
